@@ -1210,6 +1210,7 @@ class ConcProp:
         rounds = 6 if tier == "quick" else 200
         G = 16
         total = 0
+        kinds = {}
         for r in range(rounds):
             shared = []
             desc = []
@@ -1220,9 +1221,34 @@ class ConcProp:
                     shared.append("D%d,%s" % (i, core.hx(vec.rand_v3(rng, L) if ver == 3 else vec.rand_v2(rng, L))))
                     desc.append((ver, L, True))
             hs = []
-            for g in range(G):
-                h, _ = gen_history(rng, shared_desc=desc, maxops=60)
-                hs.append(";".join(h))
+            kind = "random histories"
+            nrep = 300 if tier == "quick" else 5000
+            if r % 3 == 1:
+                # export storm: every goroutine exports over and over, each with its own template text, from reports of
+                # shared and of its own objects (rare interleavings inside the export path)
+                kind = "export storm"
+                for g in range(G):
+                    own = len(desc)
+                    h = ["N3%s" % "BTE"[g % 3], "D%d,%s" % (own, core.hx(vec.rand_v3(rng, g % 3, perm=False)))]
+                    for k in range(nrep):
+                        h.append("X%d,%d" % ((own if k % 2 else g % 3), (g + (k // 97)) % 6))
+                    hs.append(";".join(h))
+            elif r % 3 == 2:
+                # report storm: reports in different languages (and with no language option) built concurrently
+                kind = "report storm"
+                for g in range(G):
+                    own = len(desc)
+                    h = ["N3%s" % "BTE"[g % 3], "D%d,%s" % (own, core.hx(vec.rand_v3(rng, g % 3, perm=False)))]
+                    for k in range(nrep // 3):
+                        h.append("R%d,%s" % ((own if k % 2 else g % 3), ["ja", "-", "en", "fr", "-", "ja"][(g + k // 31) % 6]))
+                        if k % 10 == 0:
+                            h.append("Q%d" % (g % 6))
+                    hs.append(";".join(h))
+            else:
+                for g in range(G):
+                    h, _ = gen_history(rng, shared_desc=desc, maxops=60)
+                    hs.append(";".join(h))
+            kinds[kind] = kinds.get(kind, 0) + 1
             path = os.path.join(core.BUILD, "conc-%d.txt" % r)
             with open(path, "w") as f:
                 f.write(";".join(shared) + "\n" + "\n".join(hs) + "\n")
@@ -1258,7 +1284,7 @@ class ConcProp:
                 out.samples.append({"shared_setup": ";".join(shared)[:400], "goroutine_0": hs[0][:600], "result": lines[0][:300]})
         out.evaluations = total
         out.distinct = total
-        out.hist = {"rounds": rounds, "goroutines": G, "operations": total}
+        out.hist = {"rounds": rounds, "goroutines": G, "operations": total, "round kinds": kinds}
         out.stream_info.append({"stream": "16 goroutines x %d rounds under -race" % rounds, "ops": total, "exhaustive": False,
                                 "mismatches": out.mismatches, "violations": len(out.violations)})
         return out
